@@ -22,7 +22,7 @@ def histories(tier, rng):
     n = 60 if tier == 'quick' else 600
     for h in range(n):
         sids = gens.STORY_IDS[:rng.randrange(1, 4)]
-        ro = to_text(gens.make_ro(sids, layout=rng.choice(gens.RO_LAYOUTS), timing=rng.choice(gens.TIMINGS)))
+        ro = gens.vary_envelope(rng, to_text(gens.make_ro(sids, layout=rng.choice(gens.RO_LAYOUTS), timing=rng.choice(gens.TIMINGS))))
         state = ro
         msgs = []
         c = [0]
@@ -51,7 +51,7 @@ def histories(tier, rng):
                 d = ro_delete(20 + j)
             else:
                 d = gens.make_ro(['X'], message_id=20 + j)
-            t = with_cr(to_text(d))
+            t = gens.vary_envelope(rng, with_cr(to_text(d)))
             msgs.append(t)
             res = impl.run_add(state, t)
             if 'tree' in res and not res.get('err'):
